@@ -154,7 +154,7 @@ def gen_image_case(rng, thorough=False):
         if rng.random() < 0.5:
             shape = [rng.randint(4, 8) for _ in range(3)]
     dtype = rng.choice(["uint8", "uint8", "uint8", "uint16", "float64", "float32", "int32",
-                        "uint32", "int64"])
+                        "uint32", "int64", "int16"])
     if rng.random() < 0.6:
         s = rng.choice(SEPS)
         sep = [s] * nd
@@ -187,6 +187,10 @@ def gen_image_case(rng, thorough=False):
         maxval = rng.choice([10 ** 5 + 7, 10 ** 6, 2 ** 30, 2 ** 31 - 1])
     if dtype == "uint16" and rng.random() < 0.5:
         maxval = rng.choice([300, 1023, 4095])
+    if dtype == "int16" or (dtype in ("int32", "int64") and rng.random() < 0.4):
+        # signed containers holding 9-15 bit data: integer images are used as they are (no rescaling
+        # to 8 bits), so grey levels one count apart stay distinguishable
+        maxval = rng.choice([300, 1000, 4095, 32767])
     if dtype == "uint8" and rng.random() < 0.3:
         maxval = rng.choice([1, 2, 3, 7, 40])
     inp = dict(stream="image", shape=shape, dtype=dtype, sep=sep, sep_scalar=scalar, pct=pct,
@@ -458,6 +462,12 @@ def check_image(ctx, res, image, seps, sep_arg, pctF, margin_arg, precise, sig_b
     head = "%s | %s | %s | %s" % (",".join(map(str, shape)), ",".join(rs(s) for s in seps),
                                   rs(pctF), mstr)
     is_float = not np.issubdtype(image.dtype, np.integer)
+    if not is_float and (conv.shape != image.shape or not np.array_equal(conv.astype(object), image.astype(object))):
+        # an integer image is searched as it is (documented: "provide an integer-type array"); the
+        # oracle below works on the ORIGINAL grey values, so a conversion that merges grey levels
+        # shows as wrong maxima
+        res.stat("integer_image_altered_by_conversion")
+        conv = np.asarray(image)
     if is_float:
         pxs = ",".join(rs(Fraction(float(v))) for v in image.ravel())
         m0 = common.kv(ctx.ask("GDF %s | 0 | %s" % (head, pxs)))
